@@ -310,6 +310,21 @@ def space(kind, tier):
              ("priority-pool", (2, 10, 40, True, False)), ("overbook", (1, 2, 8, True, True)), ("overbook", (2, 3, 4, True, True)), ("starter", (1, 2, 8, False, False))]
     if kind == "gen":
         return gen_space(tier)
+    if kind == "bulk":
+        # MANY short pipelines through the real main loop (bounded buffers, windows and sampled statistics only matter beyond
+        # some count); the count follows the constants of the simulator / executor sources (mc/scale.py)
+        from .. import scale as _scale
+        n, info = _scale.size(["simulator.py", "executor/", "workload/runtime_status", "workload/pipeline"], 240 if q else 1200, 140000, factor=1.25)
+        combo = tuple((("I" if i % 25 == 0 else "B"), i // 8, "single", ("s1",) if i % 2 else ("s2",)) for i in range(n))
+        for algo, cfg in (("naive", (16, 1, 4, True, False)), ("priority", (1, 160, 1600, True, False))):
+            if algo == "priority" and n > 20000:
+                continue
+            out.append((algo, cfg, combo, 1, n // 8 + 12, dict(small=0.25), None))
+        # ... and all of them through ONE pool, one per tick
+        prof1 = lambda i: "s9" if i % 97 == 0 else ("s3" if i % 41 == 0 else ("s2" if i % 3 == 0 else "s1"))    # a long tail: the 99th percentile sits in it
+        combo1 = tuple((("I" if i % 25 == 0 else "B"), i, "single", (prof1(i),)) for i in range(n))
+        out.append(("naive", (1, 1, 4, True, False), combo1, 1, sum(int(prof1(i)[1:]) for i in range(n)) + 12, dict(small=0.25), None))
+        return out
     if kind == "susp":
         # preemption under the priority scheduler; the run is cut at every tick around the write-out
         for tps in (1, 2):
